@@ -33,6 +33,8 @@ WireStage(st) ==
     [] st.t = "distinct" -> [t |-> "distinct", labels |-> IF "labels" \in DOMAIN st /\ st.labels # <<>> THEN st.labels ELSE <<st.label>>]
 WireStages(sts) == [k \in DOMAIN sts |-> WireStage(sts[k])]
 
+NoMod == [op |-> "", labels |-> <<>>, group |-> "", include |-> <<>>]
+Opt(e, f) == IF f \in DOMAIN e THEN e[f] ELSE <<>>      \* an empty string is left out of the case
 RECURSIVE WireExpr(_)
 WireExpr(e) ==
   CASE e.t = "range" -> [t |-> "range", op |-> e.op, sel |-> WireMatchers(e.sel), stages |-> WireStages(e.stages), range |-> e.range, offset |-> e.offset,
@@ -40,7 +42,12 @@ WireExpr(e) ==
                                      filters |-> WireMatchers(IF "filters" \in DOMAIN e.unwrap THEN e.unwrap.filters ELSE <<>>)],
                          param |-> IF e.op = "quantile_over_time" THEN NormPair(e.param) ELSE <<0, 1>>, grp |-> [mode |-> e.grp.mode, labels |-> e.grp.labels]]
     [] e.t = "vecagg" -> [t |-> "vecagg", op |-> e.op, k |-> IF e.op \in {"topk", "bottomk"} THEN e.k ELSE 0, grp |-> [mode |-> e.grp.mode, labels |-> e.grp.labels], e |-> WireExpr(e.e)]
-    [] e.t = "binop" -> [t |-> "binop", op |-> e.op, bool |-> e.bool, a |-> WireExpr(e.a), b |-> WireExpr(e.b)]
+    \* a vector-matching modifier is kept as written: on / ignoring with its labels, group_left / group_right with its include list
+    [] e.t = "binop" -> [t |-> "binop", op |-> e.op, bool |-> e.bool, a |-> WireExpr(e.a), b |-> WireExpr(e.b),
+                         mod |-> IF "mod" \in DOMAIN e THEN [op |-> e.mod.op, labels |-> e.mod.labels, group |-> e.mod.group, include |-> e.mod.include] ELSE NoMod]
+    \* label_replace(e, dst, replacement, src, regex): four strings in that order; the regex is compiled anchored on both sides
+    [] e.t = "lrepl" -> [t |-> "lrepl", e |-> WireExpr(e.e), dst |-> Opt(e, "dst"), repl |-> Opt(e, "repl"), src |-> Opt(e, "src"), regex |-> Opt(e, "regex"),
+                         re |-> <<94, 40, 63, 58>> \o Opt(e, "regex") \o <<41, 36>>]
     [] e.t \in {"lit", "vector"} -> [t |-> e.t, v |-> NormPair(e.v)]
 WireQuery(in) == IF in.kind = "log" THEN [t |-> "log", sel |-> WireMatchers(in.sel), stages |-> WireStages(in.stages)] ELSE WireExpr(in.expr)
 
@@ -56,9 +63,12 @@ WellFormedExpr(e) ==
     [] e.t = "vecagg" -> /\ (e.op \in {"topk", "bottomk"} => e.k > 0) /\ (e.op \in {"sort", "sort_desc"} => e.grp.mode = "none") /\ WellFormedExpr(e.e)
     [] e.t = "binop" -> WellFormedExpr(e.a) /\ WellFormedExpr(e.b) /\ (e.op \in {"and", "or", "unless"} => e.a.t # "lit" /\ e.b.t # "lit")
                         /\ ~(e.a.t = "lit" /\ e.b.t = "lit")
+                        /\ ("mod" \in DOMAIN e => e.mod.op \in {"on", "ignoring"} /\ e.mod.group \in {"", "left", "right"} /\ (e.mod.group = "" => e.mod.include = <<>>))
+    [] e.t = "lrepl" -> WellFormedExpr(e.e)
     [] OTHER -> TRUE
 \* the mutations of the conformance cases: each produces a text that the grammar or a static rule forbids
 Mutations == {"drop_close_brace", "drop_close_paren", "drop_close_bracket", "double_pipe", "trailing_op", "trailing_junk", "unterminated_string",
               "bad_regex", "bad_label_regex", "unwrap_in_log", "dup_label_format", "dup_label_format_mixed", "dup_label_format_mixed2", "dup_label_format_tmpl", "empty_selector_matcher", "quantile_no_param", "param_not_allowed",
-              "topk_no_param", "topk_zero", "sort_grouping", "range_grouping", "unwrap_missing", "unwrap_forbidden", "missing_range"}
+              "topk_no_param", "topk_zero", "sort_grouping", "range_grouping", "unwrap_missing", "unwrap_forbidden", "missing_range",
+              "lrepl_bad_regex", "lrepl_three_args", "lrepl_bare_arg", "on_without_labels", "group_without_on"}
 =============================================================================
